@@ -106,8 +106,9 @@ func loadKeyFacts(repo, pkgDir, testDir string, str func(int64) string) (keyFact
 			return kf, fmt.Errorf("%s.%s out of int8", pkgDir, kf.Names[i])
 		}
 		s := str(v)
-		// the linked String() must agree with the stringer tables in the source tree
-		if !strings.Contains(tables, s) {
+		// where the source tree has generated stringer tables, the linked String() must agree
+		// with them (a hand-written String method has none: the linked code is the truth)
+		if tables != "" && !strings.Contains(tables, s) {
 			return kf, fmt.Errorf("%s: String() of %s = %q not found in the _AttrKey_name_ tables", pkgDir, kf.Names[i], s)
 		}
 		kf.Strs = append(kf.Strs, s)
